@@ -724,12 +724,21 @@ def enc_step(label, responses, obs, last=None, full=True) -> str:
     return f'({enc_label(label)}, MkObs {out} {sels_t} {boxes_t})'
 
 
-def enc_case(setup, steps) -> str:
-    """steps = [(label, responses, obs)]"""
+def enc_case(setup, steps, light: bool = False) -> str:
+    """steps = [(label, responses, obs)].  light: glass-box observations only
+    at the last step (used for the many short schedule traces)."""
     pre = T.lst(enc_label(x) for x in setup) if setup else '(@nil label)'
     last: dict = {}
-    parts = [enc_step(*s, last=last, full=(i == len(steps) - 1 or i % 8 == 7))
-             for i, s in enumerate(steps)]
+    parts = []
+    for i, s in enumerate(steps):
+        final = i == len(steps) - 1
+        if light and not final:
+            label, responses, _obs = s
+            out = T.lst(enc_resp(r) for r in responses) if responses else '(@nil resp)'
+            parts.append(f'({enc_label(label)}, MkObs {out} (@nil (N * option sel_obs)) '
+                         f'(@nil (N * box_obs)))')
+        else:
+            parts.append(enc_step(*s, last=last, full=(final or i % 8 == 7)))
     body = T.lst(parts) if parts else '(@nil (label * step_obs))'
     return f'({pre},\n   {body})'
 
